@@ -28,27 +28,27 @@ Stake == [n \in Cands |-> PairOf(ev.stake, n, 0)]
 Prev == {ev.prev[i] : i \in 1..Len(ev.prev)}
 SeedIdx == 1..Len(ev.r1a)
 Res(f) == [s \in SeedIdx |-> FromMask(f[s])]
-AllRuns == <<ev.r1a, ev.r1b, ev.r2a, ev.r2b>>
+
+\* the distinct results over all seeds, assignments and runs / of one run
+Distinct(f) == {FromMask(f[s]) : s \in SeedIdx}
+AllDistinct == Distinct(ev.r1a) \cup Distinct(ev.r1b) \cup Distinct(ev.r2a) \cup Distinct(ev.r2b)
 
 (* exactly min(limit, |candidates|) of the candidates, and that number is what the call returns *)
-C39_Exact == IsR => /\ \A q \in 1..4 : \A s \in SeedIdx : Exact(FromMask(AllRuns[q][s]), Cands, ev.limit)
+C39_Exact == IsR => /\ \A R \in AllDistinct : Exact(R, Cands, ev.limit)
                     /\ \A i \in 1..Len(ev.mx) : ev.mx[i] = MaxNodes(Cands, ev.limit)
 (* the required number of highest-stake previous members is kept *)
-C39_PrevQuota == IsR => \A q \in 1..4 : \A s \in SeedIdx :
-                    QuotaKept(FromMask(AllRuns[q][s]), Cands, Stake, Prev, ev.limit, ev.pct)
+C39_PrevQuota == IsR => \A R \in AllDistinct : QuotaKept(R, Cands, Stake, Prev, ev.limit, ev.pct)
 (* the other places go by stake, descending *)
-C39_StakeOrdered == IsR => \A q \in 1..4 : \A s \in SeedIdx :
-                    StakeOrdered(FromMask(AllRuns[q][s]), Cands, Stake, Prev, ev.limit, ev.pct)
+C39_StakeOrdered == IsR => \A R \in AllDistinct : StakeOrdered(R, Cands, Stake, Prev, ev.limit, ev.pct)
 (* identical result for identical inputs (independent of map insertion / iteration order) *)
 C39_Deterministic == IsR => ev.r1a = ev.r1b /\ ev.r2a = ev.r2b
 (* among the candidates tied at the cut the seed alone decides: none is in (or out) for every seed *)
 C39_TieBySeedOnly == (IsR /\ ~IsKnown(ev)) =>
-                    /\ TieBySeedOnly(Res(ev.r1a), SeedIdx, Cands, Stake, Prev, ev.limit, ev.pct)
-                    /\ TieBySeedOnly(Res(ev.r2a), SeedIdx, Cands, Stake, Prev, ev.limit, ev.pct)
-(* renaming the ids renames the choice: same positions of the tied set are taken *)
-C39_RelabelInvariant == IsR => \A s \in SeedIdx :
-                    RelabelInvariant(FromMask(ev.r1a[s]), ev.ord1, FromMask(ev.r2a[s]), ev.ord2,
-                                     Cands, Stake, Prev, ev.limit, ev.pct)
+                    /\ TieBySeedOnly(Distinct(ev.r1a), Cands, Stake, Prev, ev.limit, ev.pct)
+                    /\ TieBySeedOnly(Distinct(ev.r2a), Cands, Stake, Prev, ev.limit, ev.pct)
+(* renaming the ids renames the choice: same positions of the tied set are taken, seed by seed *)
+C39_RelabelInvariant == IsR => RelabelInvariant(Res(ev.r1a), ev.ord1, Res(ev.r2a), ev.ord2, SeedIdx,
+                                                Cands, Stake, Prev, ev.limit, ev.pct)
 (* the driver really used two different canonical orders and enough seeds *)
 HarnessTwoOrders == IsR => (Len(ev.stake) >= 2 => ev.ord1 # ev.ord2) /\ Len(ev.r1a) >= 8
                            /\ Len(ev.r1b) = Len(ev.r1a) /\ Len(ev.r2a) = Len(ev.r1a) /\ Len(ev.r2b) = Len(ev.r1a)
